@@ -70,6 +70,10 @@ def parseMsg (s : String) : Option MDecl :=
     let size ← sz.toNat?
     let part ← p.toInt?
     some { key := k, size := size, topic := dash t, part := part }
+  | [k, sz, t, p, sh] => do
+    let size ← sz.toNat?
+    let part ← p.toInt?
+    some { key := k, size := size, topic := dash t, part := part, shape := sh }
   | _ => none
 
 def parseCall (s : String) : Option (CDecl × String) :=
@@ -264,7 +268,13 @@ def predict (sc : Scenario) (obs : Obs) (evs : List String) (s : State) : String
     | none => [])
   let cbs := sortBy (fun (a b : String × String) => keyNum a.1 < keyNum b.1 || (keyNum a.1 == keyNum b.1 && a.2 < b.2)) cbs
   let orDash (l : List String) := if l.isEmpty then "-" else ";".intercalate l
-  s!"ret {orDash rets} | log {orDash logs} | cb {orDash (cbs.map (fun x => x.1 ++ " " ++ x.2))} | unsent 0 | multi 0 | stuck 0 | stats {predictStats s evs} | early 0"
+  -- every record that reached a broker (journal: all attempts) arrives as the message was given: the declared shape
+  let ids := (s.journal.flatMap (fun j => match s.batches j.batch with
+    | some B => B.msgs.map (fun m => msgKey sc m.msg)
+    | none => [])).eraseDups
+  let shapes := sortBy (fun (a b : String) => a < b)
+    (ids.map (fun k => k ++ ":" ++ (match findMsg sc.calls k with | some d => d.2.2.shape | none => "?")))
+  s!"ret {orDash rets} | log {orDash logs} | cb {orDash (cbs.map (fun x => x.1 ++ " " ++ x.2))} | unsent 0 | multi 0 | stuck 0 | stats {predictStats s evs} | early 0 | shapes {orDash shapes}"
 
 /-- the fake broker's journal, from the environment events of the trace -/
 def journalOf (evs : List String) : List JReq :=
@@ -274,9 +284,14 @@ def journalOf (evs : List String) : List JReq :=
       part.toInt?.map (fun p => { topic := topic, part := p, keys := (if keys == "-" then [] else keys.splitOn ","), out := out })
     | _ => none)
 
-def parseObs (s : String) : Option Obs :=
-  match s.splitOn " | " with
-  | [rets, logs, cbs, unsent, multi, stuck, stats, early] => do
+def parseShapes (x : String) : Option (List (String × String)) :=
+  let b := (((x.drop "shapes".length).toString).trimAscii).toString
+  if b == "-" then some [] else (b.splitOn ";").mapM (fun e =>
+    match e.splitOn ":" with
+    | [k, sh] => some (k, sh)
+    | _ => none)
+
+def parseObs8 (rets logs cbs unsent multi stuck stats early : String) (shapes : List (String × String)) : Option Obs := do
     let body (pre x : String) : String := ((x.drop pre.length).toString.trimAscii).toString
     let rt := body "ret" rets
     let rets ← (if rt == "-" then some [] else (rt.splitOn ";").mapM (fun r =>
@@ -298,7 +313,13 @@ def parseObs (s : String) : Option Obs :=
       | _ => none))
     let num (pre x : String) : Option Nat := (body pre x).toNat?
     some { rets := rets, logs := logs, cbs := cbs, unsent := ← num "unsent" unsent, multi := ← num "multi" multi, stuck := ← num "stuck" stuck,
-           stats := body "stats" stats, early := ← num "early" early }
+           stats := body "stats" stats, early := ← num "early" early, shapes := shapes }
+
+def parseObs (s : String) : Option Obs :=
+  match s.splitOn " | " with
+  | [rets, logs, cbs, unsent, multi, stuck, stats, early] => parseObs8 rets logs cbs unsent multi stuck stats early []
+  | [rets, logs, cbs, unsent, multi, stuck, stats, early, shapes] => do
+    parseObs8 rets logs cbs unsent multi stuck stats early (← parseShapes shapes)
   | _ => none
 
 def answer (model : String) (holds : Bool) : String :=
